@@ -401,6 +401,7 @@ func c08Or[P curves.Point[P, F, S], F algebra.FiniteFieldElement[F], S algebra.P
 	type Z = *sigor.Response[*schnorr.Response[S]]
 	cs := &sigCase[X, sigor.Witness[*schnorr.Witness[S]], A, *sigor.State[*schnorr.State[S], *schnorr.Response[S]], Z]{
 		tag: fmt.Sprintf("or.%s.real%d", cv, real), proto: proto, x: x, w: w, x2: x2, w2: w2, heavy: true, fischlinQuick: cv == "k256" && real == int(c.Seed)%n && c.Seed%3 != 0,
+		sigmaOnly: real != int(c.Seed)%n,
 		line: func(op string, x X, a A, e []byte, z Z, extra string) string {
 			if z == nil || len(z.E) != len(z.Z) {
 				return ""
